@@ -640,6 +640,68 @@ def rule_own_copy(ctx):
                   ctx.where(mm, r))
 
 
+TOL_CALLS = ('np.isclose', 'np.allclose', 'np.round', 'np.around', 'round',
+             'np.rint', 'np.trunc', 'np.floor', 'np.ceil', 'np.unique',
+             'np.testing.assert_allclose')
+
+
+def rule_invariant_decisions(ctx):
+    """What is built from the stored parameters for the solver (the volume
+    model, the model on another grid, the layered model) may not depend on
+    the parametrisation.  Mapped values are on very different scales
+    (1e-10 S/m is 1e10 Ohm m is -10 in log10): comparing them with an
+    ABSOLUTE tolerance, rounding them or taking `unique` of them decides
+    differently for the same physical model under different mappings.
+    Identity of layers etc. is decided exactly.  (Expected count on the tree
+    is zero; a built-in example keeps the matcher alive.)"""
+    probe = ast.parse('def f(v):\n    return np.isclose(v[1:], v[:-1])')
+    hits = [c for c in ast.walk(probe) if isinstance(c, ast.Call) and
+            ast.unparse(c.func) in TOL_CALLS]
+    ctx.anchor(len(hits) == 1, 'tolerance-call matcher')
+    mm = ctx.repo.mod(MODELS)
+    n = 0
+    for cname, meth in (('Model', 'extract_1d'),
+                        ('Model', 'interpolate_to_grid'),
+                        ('VolumeModel', '__init__'),
+                        ('Model', '_init_parameter'),
+                        ('Model', '_check_positive_finite')):
+        fn = mm.method(cname, meth)
+        for c in ast.walk(fn):
+            if isinstance(c, ast.Call) and ast.unparse(c.func) in TOL_CALLS:
+                n += 1
+                ctx.check('C14.M5.tolerance', f'{cname}.{meth} '
+                          f'`{ast.unparse(c)[:50]}`', False,
+                          'stored (mapped) parameter values are compared '
+                          'with a tolerance / rounded: the outcome depends '
+                          'on the mapping (e.g. distinct very resistive '
+                          'layers differ by less than 1e-8 as conductivities '
+                          'and are merged, as resistivities they are kept), '
+                          'so the same physical model gives other solver '
+                          'input', ctx.where(mm, c))
+    ctx.ok('C14.M5.tolerance', 'model construction decides on stored values '
+           f'exactly ({n} tolerance calls found)', sample={'found': n})
+    # the gridding is estimated from the model in the MODEL's mapping: the
+    # default of `mapping` in estimate_gridding_opts is the map of the model
+    me = ctx.repo.mod('emg3d/meshes.py')
+    eg = me.func('estimate_gridding_opts')
+    pops = [c for c in au.calls(eg) if isinstance(c.func, ast.Attribute) and
+            c.func.attr == 'pop' and c.args and isinstance(
+                c.args[0], ast.Constant) and c.args[0].value == 'mapping']
+    ctx.anchor(len(pops) == 1, "`.pop('mapping', ..)` in "
+               'estimate_gridding_opts')
+    mp_ = au.params(eg)[1]
+    dflt = ast.unparse(pops[0].args[1]) if len(pops[0].args) > 1 else 'None'
+    ctx.check('C14.M4.gridding', 'estimate_gridding_opts: properties are '
+              'read in the mapping of the model', dflt in (
+                  f'{mp_}.map', f'{mp_}.map.name'),
+              f'the default of `mapping` is `{dflt}`, not the map of the '
+              'model: user-given `properties` of a model in another mapping '
+              'are read as something else (skin depth, cell widths and '
+              'buffer, hence grid, fields and data differ between '
+              'parametrisations of the same model)',
+              ctx.where(me, pops[0]))
+
+
 def run(ctx):
     ctx.explanation = (
         'forward/backward/derivative_chain of the six Map classes are lifted '
@@ -656,6 +718,7 @@ def run(ctx):
     rule_taint(ctx)
     rule_unmapped(ctx)
     rule_own_copy(ctx)
+    rule_invariant_decisions(ctx)
     # computing with a model must not change it (MapConductivity.backward
     # hands out the model's own array): shared with C02
     from . import c02
